@@ -4,6 +4,7 @@
 set -u
 export GOFLAGS=-mod=mod GOPROXY=off GOSUMDB=off GOTOOLCHAIN=local
 P=$1; M=$2; WT=/tmp/wt/$P; OUT=$WT/OUT
+# P may be a worktree name such as C02r2 (second round)
 cd $WT || exit 2
 git checkout -q -- . ; git clean -fdq src
 diff=$OUT/mut$M.diff; demo=$OUT/demo${M}_test.go
@@ -13,7 +14,7 @@ runcmd=$(grep -m1 'run:' $demo | sed 's/.*run: *//')
 echo "== $P/$M place=$place run=$runcmd"
 git apply --check $diff || { echo "APPLY-FAIL"; exit 1; }
 git apply $diff
-go build ./... || { echo "BUILD-FAIL"; git checkout -q -- .; exit 1; }
+go build ./src/... ./cmd/... || { echo "BUILD-FAIL"; git checkout -q -- .; exit 1; }
 cp $demo $place
 echo "-- demo WITH mutant (expect FAIL)"
 ( eval "$runcmd" ) > /tmp/wt/$P.$M.with.log 2>&1; rc1=$?
